@@ -43,6 +43,10 @@ CHECKS = {
         text="RadixTree.tla has cache(limit, level) as an action that only sets compiled flags under the level-by-level budget algorithm; TLC interleaves it with all updates (limits 0-3, levels 0-2 and none) and checks CacheTransparent/CacheBudget. On the real code a twin tree that is never cached receives the same history; TLC compares find / len / remove results of the two after every operation (real vs real) and, as drift, compiled flags and the returned budget with the model.",
         note="Tree level (RegexTreeMap) in this check; router-level cache (Router::cache, Route::compile, captures, traces) is covered by the router traces. Bounded as C08.",
         ref="DESIGN.md section 6, C12"),
+    "C14": dict(
+        text="Pipeline.tla: [Decode] stages [Encode] with both codec stages as transducers with nondeterministic lag (any prefix of what was received may surface now, the rest at end()), do_filter's early break when a stage surfaces nothing, the do_end cascade, and the gate (unsupported encoding => empty chain => untouched; no filter => no codec stage). TLC explores every arrival pattern x every lag on small documents (CodecTransparent, GateClosed, ScheduleExplains). For every (document, filters, encoding) case printed by TLC the harness compresses the body with independent producers (gzip/zlib levels 0,1,6,9; brotli 0,5,9), feeds the real chain with every single cut of the compressed stream, one byte at a time, strides and empty chunks, decodes the output with a fresh independent decoder and TLC judges decoded = plain-body result, stream complete, unsupported encodings untouched.",
+        note="flate2 / brotli internals are a trusted base. Chunk dependence of C03 (D1/D2) can resurface through the decoder's own chunking on documents with markup inside comments / raw text; such documents are classified with the same classes. 47 640 compressed-stream runs in the quick tier.",
+        ref="DESIGN.md section 6, C14"),
     "C15": dict(
         text="RefEdit.tla: declarative edit of a well-formed lexeme sequence (targets through the ancestor chain, value before the end tag / after the start tag / instead of the whole span for every sibling occurrence incl. void and self-closing, selector rule, composition left to right). TLC checks RunWhole = RefOut on every case inside the domain of the property; the real single-chunk output is compared by TLC with the rendering of RefOut.",
         note="Domain exactly as the property states (each path element once and child of the previous, append/prepend targets unique and non-void, replace targets possibly repeated siblings). Bounded to BodyCases.tla.",
